@@ -9,3 +9,102 @@ package types
 //@ func (*Pool).LpTokenPrice
 //@ modifies *p
 //@ frame-only
+
+// ---- pool share and reserve bookkeeping at type level (C01, C02) ------------------------------------------
+// The pricing helpers only read (checked: no store or pointer write is reachable from them).
+//@ func (*Pool).CalcJoinPoolNoSwapShares
+//@ modifies nothing
+//@ frame-only
+
+//@ func (*Pool).CalcSingleAssetJoinPoolShares
+//@ modifies nothing
+//@ frame-only
+
+//@ func (*Pool).CalcJoinValueWithoutSlippage
+//@ modifies nothing
+//@ frame-only
+
+//@ func (*Pool).CalcExitPoolCoinsFromShares
+//@ modifies nothing
+//@ frame-only
+
+//@ func (Pool).CalcOutAmtGivenIn
+//@ modifies nothing
+//@ frame-only
+
+//@ func (Pool).CalcInAmtGivenOut
+//@ modifies nothing
+//@ frame-only
+
+//@ func (Pool).GetMaximalNoSwapLPAmount
+//@ modifies nothing
+//@ frame-only
+
+// The swap computations rewrite reserves on the pool object, never its share total (their
+// arithmetic is the subject of C03).
+//@ func (*Pool).SwapOutAmtGivenIn
+//@ decabstract
+//@ modifies *p.PoolAssets
+//@ ensures C02/shares-untouched: true
+
+//@ func (*Pool).SwapInAmtGivenOut
+//@ decabstract
+//@ modifies *p.PoolAssets
+//@ ensures C02/shares-untouched: true
+
+//@ func (*Pool).TVL
+//@ modifies nothing
+//@ frame-only
+
+//@ func (*Pool).GetAccountedBalance
+//@ modifies nothing
+//@ frame-only
+
+//@ func (Pool).WeightDistanceFromTarget
+//@ modifies nothing
+//@ frame-only
+
+//@ func (Pool).NewPoolAssetsAfterSwap
+//@ modifies nothing
+//@ frame-only
+
+//@ func GetDenomOracleAssetWeight
+//@ modifies nothing
+//@ frame-only
+
+//@ func GetWeightBreakingFee
+//@ modifies nothing
+//@ frame-only
+
+//@ func NormalizedWeights
+//@ modifies nothing
+//@ frame-only
+
+//@ func GetDenomNormalizedWeight
+//@ modifies nothing
+//@ frame-only
+
+// The reserve the pool reports for a denom.
+//@ define reserveOf(p, d) := sumOver(p.PoolAssets, a, ite(a.Token.Denom == d, a.Token.Amount, 0))
+
+//@ func (*Pool).UpdatePoolAssetBalances
+//@ modifies *p.PoolAssets
+//@ ensures C02/only-reserves-change: true
+
+//@ func (*Pool).IncreaseLiquidity
+//@ modifies *p.PoolAssets, *p.TotalShares
+//@ ensures C02/shares-up-by-the-amount: err == nil ==> p.TotalShares.Amount == old(p.TotalShares.Amount) + sharesAmt && p.TotalShares.Denom == old(p.TotalShares.Denom)
+
+//@ func (*Pool).DecreaseLiquidity
+//@ modifies *p.PoolAssets, *p.TotalShares
+//@ ensures C02/shares-down-by-the-amount: err == nil ==> p.TotalShares.Amount == old(p.TotalShares.Amount) - sharesAmt && p.TotalShares.Denom == old(p.TotalShares.Denom)
+
+//@ func (*Pool).JoinPool
+//@ decabstract
+//@ modifies *p.PoolAssets, *p.TotalShares
+//@ ensures C02/shares-up-by-the-shares-returned: err == nil ==> p.TotalShares.Amount == old(p.TotalShares.Amount) + numShares && p.TotalShares.Denom == old(p.TotalShares.Denom)
+
+//@ func (*Pool).ExitPool
+//@ decabstract
+//@ modifies *p.PoolAssets, *p.TotalShares
+//@ ensures C02/shares-down-by-the-exiting-shares: err == nil ==> p.TotalShares.Amount == old(p.TotalShares.Amount) - exitingShares && p.TotalShares.Denom == old(p.TotalShares.Denom)
